@@ -348,17 +348,45 @@ add("fscPhaseRange", "Align", ["C04", "C05"], "acryo/backend/_fsc.py", "lets", [
 
 def _pcc_refine(t):
     fn = func(t, "subpixel_pcc")
+    st = first(assign_rhs(fn, "starts"), ast.ListComp).elt
+    sp = first(assign_rhs(fn, "stops"), ast.ListComp).elt
     return ([("upsampled_region_size", assign_rhs(fn, "upsampled_region_size")),
              ("dftshift", assign_rhs(fn, "dftshift")),
-             ("_lshift", assign_rhs(fn, "_lshift")),
-             ("_rshift", assign_rhs(fn, "_rshift")),
-             ("lcrop", call(fn, "crop_by_max_shifts", 1).args[1]),
-             ("rcrop", call(fn, "crop_by_max_shifts", 1).args[2])],
-            ["upsampled_region_size", "dftshift", "lcrop", "rcrop"])
+             ("lsh", assign_rhs(fn, "_lshift")),
+             ("rsh", assign_rhs(fn, "_rshift")),
+             ("center", assign_rhs(fn, "center")),
+             ("start", st), ("stop", sp)],
+            ["upsampled_region_size", "dftshift", "start", "stop"])
 
 
 add("pccRefine", "Align", ["C04", "C05"], "acryo/backend/_pcc.py", "lets",
-    [("shifts", R), ("_max_shifts", R), ("upsample_factor", I)], _pcc_refine)
+    [("shifts", R), ("_max_shifts", R), ("upsample_factor", I), ("size", I)], _pcc_refine)
+
+
+def _pcc_refine_shift(t):
+    fn = func(t, "subpixel_pcc")
+    return ([("maxima", assign_rhs(fn, "maxima", 1)), ("shifts", assign_rhs(fn, "shifts", 2))],
+            ["shifts"])
+
+
+add("pccRefineShift", "Align", ["C04", "C05"], "acryo/backend/_pcc.py", "lets",
+    [("shifts", R), ("local_maxima", I), ("starts", I), ("dftshift", R), ("upsample_factor", I)],
+    _pcc_refine_shift)
+add("pccCoarse", "Align", ["C04", "C05"], "acryo/backend/_pcc.py", "expr",
+    [("shifts", R), ("upsample_factor", I)],
+    lambda t: assign_rhs(func(t, "subpixel_pcc"), "shifts", 1))
+
+
+def _pcc_score_index(t):
+    """The score must be read at the arg-max position of the array it was searched in."""
+    fn = func(t, "subpixel_pcc")
+    rhs = ast.unparse(assign_rhs(fn, "pcc", 0))
+    return "local_maxima" in rhs and "maxima" not in rhs.replace("local_maxima", "")
+
+
+add("pccScoreAtArgmax", "Align", ["C04", "C05", "C07"], "acryo/backend/_pcc.py", "const", [],
+    _pcc_score_index)
+
 
 # ==========================================================================================
 # C06  candidate ordering / decode
